@@ -110,7 +110,7 @@ func genRefCase(r *Rng, out *outFiles) {
 		genRemoveRef(r, out)
 		return
 	}
-	cfg := tmplCfg{ap: r.Pick([]string{":", ":", "v-", "th:"}), tp: "t:", global: map[string]any{}}
+	cfg := tmplCfg{ap: r.Pick([]string{":", ":", "v-", "th:", "ui:", "wire:", "attr-"}), tp: "t:", global: map[string]any{}}
 	ap := cfg.ap
 	words := []string{"a", "b", "c7", "Zed", "q", "x1"}
 	var coll any
@@ -389,7 +389,7 @@ func genRefCase(r *Rng, out *outFiles) {
 
 // remove modes: <div id="d" :remove="MODE">CHILDREN</div>
 func genRemoveRef(r *Rng, out *outFiles) {
-	cfg := tmplCfg{ap: r.Pick([]string{":", ":", "v-", "th:"}), tp: "t:", global: map[string]any{}}
+	cfg := tmplCfg{ap: r.Pick([]string{":", ":", "v-", "th:", "ui:", "wire:", "attr-"}), tp: "t:", global: map[string]any{}}
 	type child struct {
 		src, outp  string
 		tag, blank bool
